@@ -398,12 +398,12 @@ func checkReadUntilLoops(c *Ctx, r *Report) {
 			r.Anchor(rule, "(*channel.Channel)."+name+" / Read")
 			continue
 		}
-		reads := staticCallsTo(fn, chRead)
+		reads := chunkReads(fn, chRead)
 		if len(reads) != 1 {
 			r.Bad(rule, shortFn(fn)+" accumulates", c.Pos(fn.Pos()), "the loop does not contain exactly one Channel.Read")
 			continue
 		}
-		nb := resultOf(reads[0].(*ssa.Call), 0)
+		nb := resultOf(reads[0], 0)
 		// rb phi at the loop header: [nil, rb (unchanged), append(rb, nb...)]
 		var acc *ssa.Call
 		var phi *ssa.Phi
@@ -448,6 +448,52 @@ func checkReadUntilLoops(c *Ctx, r *Report) {
 		}
 		r.Check(ok, rule, shortFn(fn)+" accumulates", c.Pos(fn.Pos()), "rb = append(rb, chunk...); returns rb on match", shortFn(fn)+": "+msg)
 	}
+}
+
+// chunkReads: the calls in fn that yield the next chunk of output: Channel.Read itself, or a helper of the same package
+// that calls Channel.Read once and returns that read's bytes (or nil) unchanged.
+func chunkReads(fn, chRead *ssa.Function) []*ssa.Call {
+	var out []*ssa.Call
+	for _, ci := range callInstrs(fn) {
+		call, ok := ci.(*ssa.Call)
+		if !ok {
+			continue
+		}
+		h := call.Call.StaticCallee()
+		if h == nil {
+			continue
+		}
+		if h == chRead || (h.Pkg == fn.Pkg && h != fn && passesChunkThrough(h, chRead)) {
+			out = append(out, call)
+		}
+	}
+	return out
+}
+
+func passesChunkThrough(h, chRead *ssa.Function) bool {
+	if len(h.Blocks) == 0 || h.Signature.Results().Len() != 2 {
+		return false
+	}
+	reads := staticCallsTo(h, chRead)
+	if len(reads) != 1 {
+		return false
+	}
+	rc, ok := reads[0].(*ssa.Call)
+	if !ok {
+		return false
+	}
+	nb := resultOf(rc, 0)
+	okAll := true
+	allInstrs(h, func(in ssa.Instruction) {
+		ret, isRet := in.(*ssa.Return)
+		if !isRet {
+			return
+		}
+		if len(ret.Results) != 2 || !(isNilConst(ret.Results[0]) || (nb != nil && ret.Results[0] == nb)) {
+			okAll = false
+		}
+	})
+	return okAll
 }
 
 func checkProcessOut(c *Ctx, r *Report) {
